@@ -7,6 +7,9 @@ import Rdm.Lemmas.ElectreCred
 import Rdm.Lemmas.ElectreDominance
 import Rdm.Lemmas.ElectrePermutation
 import Mathlib.Tactic.NormNum
+import Rdm.Lemmas.E2EMethods
+import Rdm.Lemmas.E2EMethodsElectre
+import Rdm.Lemmas.E2EMethodsExamples
 namespace Rdm.Props.C06
 open Rdm
 
@@ -178,6 +181,261 @@ example : Dominates [⟨"c", "cost", none⟩] ⟨"a", [("c", (1 : Rat))]⟩ ⟨"
   simp [Alt.signed, Alt.raw, KMap.get?, List.lookup, Crit.mult, bind, Except.bind, pure, Except.pure] at hx hy
   subst hx; subst hy
   norm_num
+
+/-! ## end to end: whole requests (`decideWith` / `Rdm.decide`, Model/Decide.lean)
+
+  `e2emElectreEntries resp.result` reads the response back as the list `ElectreIII` returned; entry i belongs to
+  `choseToMake[i]`, i.e. to the i-th considered alternative of the state that reached `Evaluate` (`resp.final`).
+  Helper lemmas: Rdm/Lemmas/E2EMethods*.lean. -/
+
+/-- **dominance end to end, whatever biases ran**: if in the state that reached `Evaluate` the ia-th considered
+    alternative is at least as good as the ib-th on every criterion of that state (hypotheses of
+    `electreIII_respects_dominance` on `resp.final`: in-domain thresholds of the final ELECTRE criteria,
+    in-domain distillation function — the request's one, see `C05.decideWith_electre_parameters`), then the
+    response ranks `choseToMake[ia]` not below `choseToMake[ib]` in both distillations and the former lists the
+    latter in `betterThanOrSameAs` -/
+theorem decideWith_electre_respects_dominance (exp : Rat → Rat) (aspOrder : List (WCrit Rat) → List (WCrit Rat))
+    (req : Request Rat) (g : Int → Draws Rat) (resp : Response Rat) (ec : KMap (ECrit Rat)) (dist : LinFun Rat)
+    (h : decideWith exp aspOrder req g = .ok resp) (hfin : resp.final.mp = .electre ec dist)
+    (hne : resp.final.crit ≠ []) (hg : Guard resp.final.crit ec) (hs : Spec.C05.distInDomain dist = true)
+    (ia ib : Nat) (hia : ia < resp.final.co.length) (hib : ib < resp.final.co.length) (hab : ia ≠ ib)
+    (hdom : Dominates resp.final.crit resp.final.co[ia] resp.final.co[ib]) :
+    resp.final.co.map (·.id) = req.chosen ∧
+    ∃ (h1 : ia < (e2emElectreEntries resp.result).length) (h2 : ib < (e2emElectreEntries resp.result).length),
+      (e2emElectreEntries resp.result)[ia].id = resp.final.co[ia].id ∧
+      (e2emElectreEntries resp.result)[ib].id = resp.final.co[ib].id ∧
+      (e2emElectreEntries resp.result)[ia].ev.1 ≤ (e2emElectreEntries resp.result)[ib].ev.1 ∧
+      (e2emElectreEntries resp.result)[ia].ev.2 ≤ (e2emElectreEntries resp.result)[ib].ev.2 ∧
+      resp.final.co[ib].id ∈ (e2emElectreEntries resp.result)[ia].links := by
+  obtain ⟨_, r, hr, hres⟩ := e2em_decideWith_electre_of_final h hfin
+  have hent : e2emElectreEntries resp.result = r := by rw [hres, e2emElectreEntries_map]
+  obtain ⟨_, hids, _⟩ := e2em_electreIII_shape hr
+  obtain ⟨h1, h2, p1, p2, p3⟩ :=
+    electreIII_respects_dominance resp.final.co resp.final.crit hne ec hg dist hs ia ib hia hib hab hdom r hr
+  refine ⟨(e2em_decideWith_co h).1, ?_⟩
+  simp only [hent]
+  exact ⟨h1, h2, hids ia hia h1, hids ib hib h2, p1, p2, p3⟩
+
+/-- **identical alternatives end to end**: two considered alternatives of the final state that are at least as
+    good as each other on every criterion receive identical indices and list each other -/
+theorem decideWith_electre_identical_alternatives (exp : Rat → Rat)
+    (aspOrder : List (WCrit Rat) → List (WCrit Rat)) (req : Request Rat) (g : Int → Draws Rat)
+    (resp : Response Rat) (ec : KMap (ECrit Rat)) (dist : LinFun Rat)
+    (h : decideWith exp aspOrder req g = .ok resp) (hfin : resp.final.mp = .electre ec dist)
+    (hne : resp.final.crit ≠ []) (hg : Guard resp.final.crit ec) (hs : Spec.C05.distInDomain dist = true)
+    (ia ib : Nat) (hia : ia < resp.final.co.length) (hib : ib < resp.final.co.length) (hab : ia ≠ ib)
+    (h1 : Dominates resp.final.crit resp.final.co[ia] resp.final.co[ib])
+    (h2 : Dominates resp.final.crit resp.final.co[ib] resp.final.co[ia]) :
+    ∃ (ha : ia < (e2emElectreEntries resp.result).length) (hb : ib < (e2emElectreEntries resp.result).length),
+      (e2emElectreEntries resp.result)[ia].ev = (e2emElectreEntries resp.result)[ib].ev ∧
+      resp.final.co[ib].id ∈ (e2emElectreEntries resp.result)[ia].links ∧
+      resp.final.co[ia].id ∈ (e2emElectreEntries resp.result)[ib].links := by
+  obtain ⟨_, a1, a2, _, _, p1, p2, p3⟩ :=
+    decideWith_electre_respects_dominance exp aspOrder req g resp ec dist h hfin hne hg hs ia ib hia hib hab h1
+  obtain ⟨_, _, _, _, _, q1, q2, q3⟩ :=
+    decideWith_electre_respects_dominance exp aspOrder req g resp ec dist h hfin hne hg hs ib ia hib hia
+      (Ne.symm hab) h2
+  exact ⟨a1, a2, Prod.ext (le_antisymm p1 q1) (le_antisymm p2 q2), p3, q3⟩
+
+/-- **dominance stated on the REQUEST, for requests without an enabled bias**: if known alternative `a` is at
+    least as good as known alternative `b` on every criterion of the request, `choseToMake` names them at the
+    positions `ia ≠ ib` (known ids pairwise different), the request's ELECTRE criteria and distillation function
+    are in the domain, then the response ranks a not below b in both distillations and a lists b -/
+theorem decideWith_no_bias_electre_respects_dominance (exp : Rat → Rat)
+    (aspOrder : List (WCrit Rat) → List (WCrit Rat)) (req : Request Rat) (g : Int → Draws Rat)
+    (resp : Response Rat) (ec : KMap (ECrit Rat)) (dist : LinFun Rat)
+    (h : decideWith exp aspOrder req g = .ok resp) (hb : ∀ b ∈ req.biases, b.disabled = true)
+    (hmp : req.mp = some (.electre ec dist)) (hne : req.crit ≠ []) (hg : Guard req.crit ec)
+    (hs : Spec.C05.distInDomain dist = true) (hk : (req.known.map (·.id)).Nodup)
+    (a b : Alt Rat) (ha : a ∈ req.known) (hbk : b ∈ req.known)
+    (ia ib : Nat) (hia : ia < req.chosen.length) (hib : ib < req.chosen.length) (hab : ia ≠ ib)
+    (hca : req.chosen[ia] = a.id) (hcb : req.chosen[ib] = b.id) (hdom : Dominates req.crit a b) :
+    ∃ (h1 : ia < (e2emElectreEntries resp.result).length) (h2 : ib < (e2emElectreEntries resp.result).length),
+      (e2emElectreEntries resp.result)[ia].id = a.id ∧ (e2emElectreEntries resp.result)[ib].id = b.id ∧
+      (e2emElectreEntries resp.result)[ia].ev.1 ≤ (e2emElectreEntries resp.result)[ib].ev.1 ∧
+      (e2emElectreEntries resp.result)[ia].ev.2 ≤ (e2emElectreEntries resp.result)[ib].ev.2 ∧
+      b.id ∈ (e2emElectreEntries resp.result)[ia].links := by
+  obtain ⟨mp, hmp', hpp, hcrit, hfmp, _⟩ := e2em_no_bias_final h hb
+  rw [hmp] at hmp'; cases hmp'
+  obtain ⟨hia', ea⟩ := e2em_prepareParams_getElem_eq hpp hk ia hia a ha hca
+  obtain ⟨hib', eb⟩ := e2em_prepareParams_getElem_eq hpp hk ib hib b hbk hcb
+  obtain ⟨_, h1, h2, i1, i2, p1, p2, p3⟩ :=
+    decideWith_electre_respects_dominance exp aspOrder req g resp ec dist h hfmp (by rw [hcrit]; exact hne)
+      (by rw [hcrit]; exact hg) hs ia ib hia' hib' hab (by rw [hcrit, ea, eb]; exact hdom)
+  rw [ea] at i1
+  rw [eb] at i2 p3
+  exact ⟨h1, h2, i1, i2, p1, p2, p3⟩
+
+/-- **identical alternatives stated on the request** (no enabled bias): known alternatives that are at least as
+    good as each other on every criterion — in particular alternatives with identical criteria values —
+    receive identical indices and list each other -/
+theorem decideWith_no_bias_electre_identical_alternatives (exp : Rat → Rat)
+    (aspOrder : List (WCrit Rat) → List (WCrit Rat)) (req : Request Rat) (g : Int → Draws Rat)
+    (resp : Response Rat) (ec : KMap (ECrit Rat)) (dist : LinFun Rat)
+    (h : decideWith exp aspOrder req g = .ok resp) (hb : ∀ b ∈ req.biases, b.disabled = true)
+    (hmp : req.mp = some (.electre ec dist)) (hne : req.crit ≠ []) (hg : Guard req.crit ec)
+    (hs : Spec.C05.distInDomain dist = true) (hk : (req.known.map (·.id)).Nodup)
+    (a b : Alt Rat) (ha : a ∈ req.known) (hbk : b ∈ req.known)
+    (ia ib : Nat) (hia : ia < req.chosen.length) (hib : ib < req.chosen.length) (hab : ia ≠ ib)
+    (hca : req.chosen[ia] = a.id) (hcb : req.chosen[ib] = b.id)
+    (h1 : Dominates req.crit a b) (h2 : Dominates req.crit b a) :
+    ∃ (ha' : ia < (e2emElectreEntries resp.result).length) (hb' : ib < (e2emElectreEntries resp.result).length),
+      (e2emElectreEntries resp.result)[ia].ev = (e2emElectreEntries resp.result)[ib].ev ∧
+      b.id ∈ (e2emElectreEntries resp.result)[ia].links ∧ a.id ∈ (e2emElectreEntries resp.result)[ib].links := by
+  obtain ⟨a1, a2, _, _, p1, p2, p3⟩ :=
+    decideWith_no_bias_electre_respects_dominance exp aspOrder req g resp ec dist h hb hmp hne hg hs hk a b ha hbk
+      ia ib hia hib hab hca hcb h1
+  obtain ⟨_, _, _, _, q1, q2, q3⟩ :=
+    decideWith_no_bias_electre_respects_dominance exp aspOrder req g resp ec dist h hb hmp hne hg hs hk b a hbk ha
+      ib ia hib hia (Ne.symm hab) hcb hca h2
+  exact ⟨a1, a2, Prod.ext (le_antisymm p1 q1) (le_antisymm p2 q2), p3, q3⟩
+
+/-- **listing order, end to end** (requests without an enabled bias): if `req'` lists the same known
+    alternatives (pairwise different ids) in another order and names in `choseToMake` the alternatives of `req`
+    in the order `π` (`req'.chosen[i] = req.chosen[π i]`), same criteria and ELECTRE parameters, then entry i of
+    the second response is entry `π i` of the first: same alternative, same pair of indices, the same
+    `betterThanOrSameAs` set — whatever the stream functions.  No domain restriction.
+    (With enabled biases a reordered request is a different experiment: the biases consume their random
+    streams in list order; the statement then holds for the method stage, `electreIII_permutation_equivariant`
+    applied to `C05.decideWith_electre_result_is_electreIII`.) -/
+theorem decideWith_no_bias_electre_permutation_equivariant (exp exp' : Rat → Rat)
+    (aspOrder aspOrder' : List (WCrit Rat) → List (WCrit Rat)) (req req' : Request Rat)
+    (g g' : Int → Draws Rat) (resp resp' : Response Rat) (ec : KMap (ECrit Rat)) (dist : LinFun Rat)
+    (π : Nat → Nat)
+    (hmp : req.mp = some (.electre ec dist)) (hmp' : req'.mp = some (.electre ec dist))
+    (hcrit : req'.crit = req.crit)
+    (hb : ∀ b ∈ req.biases, b.disabled = true) (hb' : ∀ b ∈ req'.biases, b.disabled = true)
+    (hk : req'.known.Perm req.known) (hnd : (req.known.map (·.id)).Nodup)
+    (hπ : IsPerm req.chosen.length π) (hl : req'.chosen.length = req.chosen.length)
+    (hc : ∀ i (hi : i < req.chosen.length), req'.chosen[i]'(by rw [hl]; exact hi) = req.chosen[π i]'(hπ.lt i hi))
+    (h : decideWith exp aspOrder req g = .ok resp) (h' : decideWith exp' aspOrder' req' g' = .ok resp') :
+    (e2emElectreEntries resp.result).length = req.chosen.length ∧
+    (e2emElectreEntries resp'.result).length = req.chosen.length ∧
+    ∀ i (_ : i < req.chosen.length) (h1 : i < (e2emElectreEntries resp'.result).length)
+        (h2 : π i < (e2emElectreEntries resp.result).length),
+      (e2emElectreEntries resp'.result)[i].id = (e2emElectreEntries resp.result)[π i].id ∧
+      (e2emElectreEntries resp'.result)[i].ev = (e2emElectreEntries resp.result)[π i].ev ∧
+      ∀ b, b ∈ (e2emElectreEntries resp'.result)[i].links ↔ b ∈ (e2emElectreEntries resp.result)[π i].links := by
+  obtain ⟨mp, hm, hpp, hcr, hfmp, _⟩ := e2em_no_bias_final h hb
+  obtain ⟨mp', hm', hpp', hcr', hfmp', _⟩ := e2em_no_bias_final h' hb'
+  rw [hmp] at hm; cases hm
+  rw [hmp'] at hm'; cases hm'
+  obtain ⟨_, r, hr, hres⟩ := e2em_decideWith_electre_of_final h hfmp
+  obtain ⟨_, r', hr', hres'⟩ := e2em_decideWith_electre_of_final h' hfmp'
+  have hent : e2emElectreEntries resp.result = r := by rw [hres, e2emElectreEntries_map]
+  have hent' : e2emElectreEntries resp'.result = r' := by rw [hres', e2emElectreEntries_map]
+  obtain ⟨l1, l2, hco⟩ := e2em_prepareParams_permuted hk hnd π hπ.lt hl hc hpp hpp'
+  rw [hcr', hcrit, ← hcr] at hr'
+  have hπ' : IsPerm resp.final.co.length π := by rw [l1]; exact hπ
+  obtain ⟨e1, e2, e3⟩ := electreIII_permutation_equivariant resp.final.co resp'.final.co resp.final.crit ec dist π
+    hπ' (by rw [l1, l2]) (fun i hi => hco i (by rw [← l1]; exact hi) _ _) r r' hr hr'
+  obtain ⟨_, hids, hlk⟩ := e2em_electreIII_shape hr
+  obtain ⟨_, hids', hlk'⟩ := e2em_electreIII_shape hr'
+  rw [l1] at e1 e2
+  have hev : ∀ i (_ : i < req.chosen.length) (h1 : i < r'.length) (h2 : π i < r.length),
+      r'[i].ev = r[π i].ev ∧ r'[i].id = r[π i].id := by
+    intro i hi h1 h2
+    refine ⟨e3 i (by rw [l1]; exact hi) h1 h2, ?_⟩
+    rw [hids' i (by rw [l2]; exact hi) h1, hids (π i) (by rw [l1]; exact hπ.lt i hi) h2,
+      hco i hi (by rw [l2]; exact hi) (by rw [l1]; exact hπ.lt i hi)]
+  simp only [hent, hent']
+  refine ⟨e1, e2, fun i hi h1 h2 => ⟨(hev i hi h1 h2).2, (hev i hi h1 h2).1, ?_⟩⟩
+  exact e2em_links_equivariant hπ e1 e2 hlk hlk' hev i hi h1 h2
+
+/-- **scaling of the weights, end to end** (requests without an enabled bias): multiplying every weight `k` of the
+    request's ELECTRE criteria by the same `c ≠ 0` leaves the whole `result` unchanged -/
+theorem decideWith_no_bias_electre_weights_scaling (c : Rat) (hc : c ≠ 0) (exp exp' : Rat → Rat)
+    (aspOrder aspOrder' : List (WCrit Rat) → List (WCrit Rat)) (req req' : Request Rat)
+    (g g' : Int → Draws Rat) (resp resp' : Response Rat) (ec : KMap (ECrit Rat)) (dist : LinFun Rat)
+    (hmp : req.mp = some (.electre ec dist)) (hmp' : req'.mp = some (.electre (scaleWeights c ec) dist))
+    (hcrit : req'.crit = req.crit) (hkn : req'.known = req.known) (hch : req'.chosen = req.chosen)
+    (hb : ∀ b ∈ req.biases, b.disabled = true) (hb' : ∀ b ∈ req'.biases, b.disabled = true)
+    (h : decideWith exp aspOrder req g = .ok resp) (h' : decideWith exp' aspOrder' req' g' = .ok resp') :
+    resp'.result = resp.result := by
+  obtain ⟨mp, hm, hpp, hcr, hfmp, _⟩ := e2em_no_bias_final h hb
+  obtain ⟨mp', hm', hpp', hcr', hfmp', _⟩ := e2em_no_bias_final h' hb'
+  rw [hmp] at hm; cases hm
+  rw [hmp'] at hm'; cases hm'
+  obtain ⟨_, r, hr, hres⟩ := e2em_decideWith_electre_of_final h hfmp
+  obtain ⟨_, r', hr', hres'⟩ := e2em_decideWith_electre_of_final h' hfmp'
+  have hco : resp'.final.co = resp.final.co := by
+    unfold prepareParams at hpp hpp'
+    obtain ⟨co, hco, hpp⟩ := bind_eq_ok.mp hpp
+    obtain ⟨co', hco', hpp'⟩ := bind_eq_ok.mp hpp'
+    simp only [pure, Except.pure, Except.ok.injEq] at hpp hpp'
+    rw [hkn, hch, hco] at hco'
+    simp only [Except.ok.injEq] at hco'
+    rw [← hpp, ← hpp', hco']
+  rw [hco, hcr', hcrit, ← hcr, weights_scaling_electreIII c hc, hr] at hr'
+  simp only [Except.ok.injEq] at hr'
+  rw [hres, hres', hr']
+
+/-- the hypotheses of the bias-free theorems are satisfiable: in `e2emExElectrePlain` (no enabled bias) alternatives
+    `"b"` and `"c"` have identical values and both dominate `"a"`; thresholds and distillation function in domain -/
+example : ∃ resp, Rdm.decide id e2emExElectrePlain e2eExSeeds = .ok resp ∧
+    ∃ (h0 : 0 < (e2emElectreEntries resp.result).length) (h1 : 1 < (e2emElectreEntries resp.result).length)
+      (h2 : 2 < (e2emElectreEntries resp.result).length),
+      -- "c" (position 0) dominates "a" (position 1)
+      (e2emElectreEntries resp.result)[0].ev.1 ≤ (e2emElectreEntries resp.result)[1].ev.1 ∧
+      (e2emElectreEntries resp.result)[0].ev.2 ≤ (e2emElectreEntries resp.result)[1].ev.2 ∧
+      "a" ∈ (e2emElectreEntries resp.result)[0].links ∧
+      -- "c" (position 0) and "b" (position 2) are identical
+      (e2emElectreEntries resp.result)[0].ev = (e2emElectreEntries resp.result)[2].ev := by
+  obtain ⟨resp, h⟩ := e2e_ok_of_isOk (x := Rdm.decide id e2emExElectrePlain e2eExSeeds) (by decide +kernel)
+  have hg : Guard e2emExElectrePlain.crit e2emExEc := e2em_guardB (by decide +kernel)
+  have hs : Spec.C05.distInDomain (defaultDistillation : LinFun Rat) = true := by decide +kernel
+  obtain ⟨h0, h1, _, _, p1, p2, p3⟩ := decideWith_no_bias_electre_respects_dominance id _ _ _ resp e2emExEc _ h
+    (by decide) rfl (by decide) hg hs (by decide)
+    ⟨"c", [("c0", 3), ("c1", 1)]⟩ ⟨"a", [("c0", 1), ("c1", 2)]⟩ (.tail _ (.tail _ (.head _))) (.head _)
+    0 1 (by decide) (by decide) (by decide) rfl rfl (e2em_dominatesB (by decide +kernel))
+  obtain ⟨_, h2, q1, _, _⟩ := decideWith_no_bias_electre_identical_alternatives id _ _ _ resp e2emExEc _ h
+    (by decide) rfl (by decide) hg hs (by decide)
+    ⟨"c", [("c0", 3), ("c1", 1)]⟩ ⟨"b", [("c0", 3), ("c1", 1)]⟩ (.tail _ (.tail _ (.head _))) (.tail _ (.head _))
+    0 2 (by decide) (by decide) (by decide) rfl rfl (e2em_dominatesB (by decide +kernel))
+    (e2em_dominatesB (by decide +kernel))
+  exact ⟨resp, h, h0, h1, h2, p1, p2, p3, q1⟩
+
+/-- … of `decideWith_no_bias_electre_permutation_equivariant`: the same request with the known alternatives
+    reversed and `choseToMake` = ["a","b","c"] instead of ["c","a","b"] (π = 0↦1, 1↦2, 2↦0), read with
+    another seed table -/
+example : IsPerm 3 (fun i => if i = 0 then 1 else if i = 1 then 2 else if i = 2 then 0 else i) := by
+  refine ⟨fun i j h => ?_, by decide⟩
+  split_ifs at h <;> omega
+
+example : ∃ resp resp', Rdm.decide id e2emExElectrePlain e2eExSeeds = .ok resp ∧
+    Rdm.decide id e2emExElectrePlain' [] = .ok resp' ∧
+    ∀ (h1 : 0 < (e2emElectreEntries resp'.result).length) (h2 : 1 < (e2emElectreEntries resp.result).length),
+      (e2emElectreEntries resp'.result)[0].id = (e2emElectreEntries resp.result)[1].id ∧
+      (e2emElectreEntries resp'.result)[0].ev = (e2emElectreEntries resp.result)[1].ev := by
+  obtain ⟨resp, h⟩ := e2e_ok_of_isOk (x := Rdm.decide id e2emExElectrePlain e2eExSeeds) (by decide +kernel)
+  obtain ⟨resp', h'⟩ := e2e_ok_of_isOk (x := Rdm.decide id e2emExElectrePlain' []) (by decide +kernel)
+  refine ⟨resp, resp', h, h', ?_⟩
+  have hπ : IsPerm e2emExElectrePlain.chosen.length
+      (fun i => if i = 0 then 1 else if i = 1 then 2 else if i = 2 then 0 else i) := by
+    refine ⟨fun i j h => ?_, by decide⟩
+    split_ifs at h <;> omega
+  obtain ⟨_, _, key⟩ := decideWith_no_bias_electre_permutation_equivariant id id sortCriteriaDesc sortCriteriaDesc
+    e2emExElectrePlain e2emExElectrePlain' (genOf e2eExSeeds) (genOf []) resp resp' e2emExEc defaultDistillation
+    _ rfl rfl rfl (by decide) (by decide) (List.reverse_perm _) (by decide) hπ rfl
+    (by intro i hi
+        have : i = 0 ∨ i = 1 ∨ i = 2 := by
+          have : i < 3 := hi
+          omega
+        rcases this with rfl | rfl | rfl <;> rfl) h h'
+  intro h1 h2
+  obtain ⟨k1, k2, _⟩ := key 0 (by decide) h1 h2
+  exact ⟨k1, k2⟩
+
+/-- the hypotheses of `decideWith_electre_respects_dominance` (on the FINAL state of a request with biases: a
+    fatigue fired and rewrote every value) are satisfiable — as a computation on the model's own answer: the
+    final criteria are non-empty and in the domain, and considered alternative 0 still dominates alternative 1 -/
+example : (match Rdm.decide id e2emExElectre e2eExSeeds with
+    | .ok resp => (match resp.final.mp, resp.final.co with
+        | .electre ec dist, [c, a, _] =>
+          e2emGuardB resp.final.crit ec && !resp.final.crit.isEmpty && Spec.C05.distInDomain dist &&
+            e2emDominatesB resp.final.crit c a
+        | _, _ => false)
+    | .error _ => false) = true := by decide +kernel
 
 /-- the constants and names this property depends on were re-read from the working tree on this run
     (none fell back to its pinned value because its declaration could not be located) -/
